@@ -103,8 +103,10 @@ func VH_C04_Put() {
 	cts := []string{types.MediaTypeOCI1Manifest, types.MediaTypeOCI1ManifestList, types.MediaTypeDocker2Manifest, types.MediaTypeDocker2ManifestList, "", "text/plain", types.MediaTypeOCI1Manifest + "; charset=utf-8"}
 	cti := vh.Choice("ctype", len(cts))
 	bodyAsBlob := false
-	if !doc.refsOK(level) && doc.kind != "none" {
+	if doc.kind != "none" {
 		bodyAsBlob = vh.Bool("bodyStoredAsBlob")
+		// (for a complete document: pushed by its digest or under a new tag only)
+		vh.Assume(!bodyAsBlob || !doc.refsOK(level) || ri == 1 || ri == 5)
 	}
 	if vh.Param("FULL", 0) == 0 && level != 1 {
 		// quick tier: the full product reference x ?digest x Content-Type is explored in
